@@ -20,6 +20,8 @@ VERIF = os.path.dirname(os.path.dirname(os.path.abspath(__file__)))
 def run_one(d, tier, extra_ids=()):
     meta_p = os.path.join(d, "meta.json")
     meta = json.load(open(meta_p))
+    if meta.get("obsolete"):
+        return {"obsolete": meta["obsolete"].get("reason", "")[:80]}  # a later repair removed what the change relied on
     ids = [meta["property"]] + [i for i in meta.get("also_try", []) if i != meta["property"]] + list(extra_ids)
     base = tempfile.mkdtemp(prefix="jasm_sweep_", dir="/tmp")
     res = {}
@@ -62,7 +64,7 @@ def main(argv):
             res = run_one(d, tier)
             print(f"{kind}/{name}: {res}", flush=True)
             own = json.load(open(os.path.join(d, "meta.json")))["property"]
-            ok = ok and res.get(own) == 1
+            ok = ok and (res.get(own) == 1 or "obsolete" in res)
     return 0 if ok else 1
 
 
